@@ -94,7 +94,9 @@ func (r *Run) Anchor(ok bool, rule, what string) bool {
 	return ok
 }
 
-func (r *Run) Note(format string, a ...interface{}) { r.Notes = append(r.Notes, fmt.Sprintf(format, a...)) }
+func (r *Run) Note(format string, a ...interface{}) {
+	r.Notes = append(r.Notes, fmt.Sprintf(format, a...))
+}
 
 func (r *Run) Count(k string, n int) { r.Counters[k] += n }
 
